@@ -59,7 +59,7 @@ def check(ctx):
     r = ctx.call_func(I, st, f, d2)
     I2, s2 = ctx.interp(), State()
     ref = ctx.call_func(I2, s2, "ref.quickshift_ref.gabriel_graph", d2)
-    ctx.compare("NF-GABRIEL", "_get_gabriel_graph == brute-force definition (strict, symmetric, no self loops)", N, r, ref, ctx.site(f), alternatives=_alts(ctx, ("gabriel_graph_diag_first", "gabriel_graph_rowwise", "gabriel_graph_by_witness"), d2))
+    ctx.compare("NF-GABRIEL", "_get_gabriel_graph == brute-force definition (strict, symmetric, no self loops)", N, r, ref, ctx.site(f), alternatives=_alts(ctx, ("gabriel_graph_diag_first", "gabriel_graph_assigned", "gabriel_graph_rowwise", "gabriel_graph_by_witness"), d2))
     ctx.no_shape_conflicts("Shape", "_get_gabriel_graph", I, 0, ctx.site(f))
     # ---- steps ------------------------------------------------------------------------------
     i, nn, cut = index("i", "n"), index("nn", "n"), scalar("cutoff", 0, None)
